@@ -114,6 +114,10 @@ C18_RangesCover(o) ==
 C18_BlockFiltersCover(o) == \A b \in 1..NB(o) : Blk(o, b).missb = 0
 C18_FileFiltersCover(o) == \A b \in 1..NB(o) : Blk(o, b).missf = 0
 
+\* C11's own statement of the two structural clauses, after a merge
+C11_PartitionKept(o) == o.case.merges > 0 => C18_PartitionIsRowsPartition(o)
+C11_RangesStillCover(o) == o.case.merges > 0 => C18_RangesCover(o)
+
 (***************************************************************************)
 (* C17: files describe themselves truthfully                               *)
 (***************************************************************************)
@@ -223,6 +227,7 @@ Props(o) ==
     C03_ConcurrentAgree |-> C03_ConcurrentAgree(o),
     C11_BagUnchanged |-> C11_BagUnchanged(o), C11_AnswersPreserved |-> C11_AnswersPreserved(o),
     C11_MergeSucceeds |-> C11_MergeSucceeds(o),
+    C11_PartitionKept |-> C11_PartitionKept(o), C11_RangesStillCover |-> C11_RangesStillCover(o),
     C17_EntryCountsMeasured |-> C17_EntryCountsMeasured(o), C17_RowCount |-> C17_RowCount(o),
     C17_FileEntryCounts |-> C17_FileEntryCounts(o), C17_Layout |-> C17_Layout(o),
     C17_MetadataMatchesBytes |-> C17_MetadataMatchesBytes(o),
